@@ -71,6 +71,20 @@ class VariableComputationNode(ComputationNode):
                 return l.target
         return None
 
+    def _simple_repr(self):
+        # 'next' / 'previous' links are added by the graph after construction
+        r = super()._simple_repr()
+        r["order_links"] = simple_repr([l for l in self.links if isinstance(l, OrderLink)])
+        return r
+
+    @classmethod
+    def _from_repr(cls, r):
+        r = dict(r)
+        order_links = from_repr(r.pop("order_links", []))
+        node = super()._from_repr(r)
+        node.links.extend(order_links)
+        return node
+
     def __eq__(self, other):
         if type(other) != VariableComputationNode:
             return False
